@@ -9,7 +9,7 @@ Such universes have no counting semantics: only structural clauses are judged on
 from comb_spec_searcher import CombinatorialClass, StrategyPack, VerificationStrategy
 from comb_spec_searcher.exception import InvalidOperationError
 from comb_spec_searcher.strategies.constructor import Constructor
-from comb_spec_searcher.strategies.strategy import Strategy
+from comb_spec_searcher.strategies.strategy import Strategy, StrategyFactory
 
 
 class Lab(CombinatorialClass):
@@ -124,9 +124,37 @@ class TableStrategy(Strategy):
         raise NotImplementedError
 
 
+class ForeignRows(StrategyFactory):
+    """Factory: for the class being expanded, the rules of all rows in which it is a *child*
+    (rules whose parent is another class)."""
+
+    def __init__(self, table, empties=()):
+        self.table = tuple(tuple(tuple(x) if isinstance(x, list) else x for x in row) for row in table)
+        self.empties = tuple(empties)
+
+    def __call__(self, c):
+        if not isinstance(c, Lab) or c.empty:
+            return
+        for idx, row in enumerate(self.table):
+            if c.i in row[1] and row[0] != c.i and len(row[1]) > 0:
+                yield TableStrategy(self.table, idx, self.empties)(Lab(row[0], row[0] in self.empties))
+
+    def __str__(self):
+        return "rows in which the class is a child"
+
+    def __repr__(self):
+        return "ForeignRows"
+
+    @classmethod
+    def from_dict(cls, d):
+        raise NotImplementedError
+
+
 class TableVer(VerificationStrategy):
-    def __init__(self, labels):
+    def __init__(self, labels, packs=None):
         self.labels = frozenset(labels)
+        # packs: label -> table dict; the pack offered for that verified class
+        self.packs = dict(packs or {})
         super().__init__()
 
     def verified(self, c):
@@ -136,6 +164,8 @@ class TableVer(VerificationStrategy):
         return "table verified"
 
     def pack(self, c):
+        if isinstance(c, Lab) and c.i in self.packs:
+            return build_pack(self.packs[c.i], foreign=True)
         raise InvalidOperationError("no pack")
 
     @classmethod
@@ -146,8 +176,12 @@ class TableVer(VerificationStrategy):
         return "TableVer"
 
 
-def random_table(rng, n=None, nrows=None, p_empty=0.15):
-    """Judged-mode table: unary rows have shift 0; two_way => reversible."""
+def random_table(rng, n=None, nrows=None, p_empty=0.15, positive=False):
+    """Judged-mode table: unary rows have shift 0; two_way => reversible.  With `positive`
+    every child of a row of arity >= 2 has a shift >= 1 (each such rule strictly reduces
+    the size): then every cycle among rules passes through a positive shift or consists of
+    single-child rules only, so a specification found by *pruning* (which never looks at
+    shifts but merges single-child cycles into equivalence classes) must be productive too."""
     n = n or rng.randint(3, 7)
     nrows = nrows or rng.randint(3, 14)
     rows = []
@@ -158,7 +192,7 @@ def random_table(rng, n=None, nrows=None, p_empty=0.15):
         if arity == 1:
             shifts = [0]
         else:
-            shifts = [rng.randint(0, 2) for _ in range(arity)]
+            shifts = [rng.randint(1 if positive else 0, 2) for _ in range(arity)]
         two_way = arity >= 1 and rng.random() < (0.6 if arity == 1 else 0.3)
         reversible = two_way or (arity >= 1 and rng.random() < 0.3)
         rows.append([parent, children, shifts, bool(two_way), bool(reversible)])
@@ -170,6 +204,20 @@ def random_table(rng, n=None, nrows=None, p_empty=0.15):
         if len(nonempty) == 1:
             row[2][nonempty[0]] = 0
     return {"n": n, "rows": rows, "empties": empties}
+
+
+def add_one_way_cycle(rng, table):
+    """Hostile shape: a directed cycle of single-child rows over 2-4 labels, each edge
+    one-way with probability 0.7 (else two-way), inserted at random positions: the rule
+    databases must merge it into one equivalence class whatever the arrival order."""
+    rows, n = table["rows"], table["n"]
+    if n < 2:
+        return table
+    labs = rng.sample(range(n), min(n, rng.randint(2, 4)))
+    for a, b in zip(labs, labs[1:] + labs[:1]):
+        tw = rng.random() < 0.3
+        rows.insert(rng.randrange(len(rows) + 1), [a, [b], [0], tw, tw or rng.random() < 0.3])
+    return table
 
 
 def add_twin_unary_rows(rng, table, k=None):
@@ -194,10 +242,13 @@ def add_twin_unary_rows(rng, table, k=None):
     return table
 
 
-def build_pack(table, iterative=False, sets=1):
+def build_pack(table, iterative=False, sets=1, foreign=False):
     rows, empties = table["rows"], table["empties"]
     strats = [TableStrategy(rows, i, empties) for i, r in enumerate(rows) if len(r[1]) > 0]
-    ver = TableVer([r[0] for r in rows if len(r[1]) == 0])
+    if foreign:
+        strats.append(ForeignRows(rows, empties))
+    packs = {int(k): v for k, v in (table.get("packs") or {}).items()}
+    ver = TableVer([r[0] for r in rows if len(r[1]) == 0], packs)
     if sets == 1 or len(strats) < 2:
         exp = [strats]
     else:
@@ -205,3 +256,67 @@ def build_pack(table, iterative=False, sets=1):
         exp = [strats[:half], strats[half:]]
     return StrategyPack(initial_strats=[], inferral_strats=[], expansion_strats=exp,
                         ver_strats=[ver], name="table", iterative=iterative)
+
+
+def all_packs(table):
+    """The pack of a table and, recursively, the packs its verification rows offer."""
+    out = [build_pack(table, foreign=bool(table.get("foreign")))]
+    for sub in (table.get("packs") or {}).values():
+        out.extend(build_pack(t, foreign=True) for t in _subtables(sub))
+    return out
+
+
+def _subtables(t):
+    yield t
+    for sub in (t.get("packs") or {}).values():
+        yield from _subtables(sub)
+
+
+def complement_universe(rng):
+    """A universe in which expanding a verified class succeeds only through a reverse rule.
+
+    Root 0 -> (V_1, X_1, ..., W?) ; each V_i is verified and offers a pack whose only way
+    to V_i is the row  X_i -> (V_i, A_i)  read backwards (V_i = X_i - A_i), X_i being a
+    plain verified class of the specification and A_i verified by the offered pack.  With
+    `via_reverse` the root has a further child W that the original search itself can only
+    obtain through a reverse rule (row Z -> (W, B)), so that - under the forest database -
+    the specification to be expanded already contains a reverse rule.  Some V_i also get a
+    forward row in their pack (no retry needed for those)."""
+    k = rng.randint(1, 3)
+    via_reverse = rng.random() < 0.5
+    nxt = [1]
+
+    def fresh():
+        nxt[0] += 1
+        return nxt[0] - 1
+
+    rows, packs = [], {}
+    kids = []
+    for _ in range(k):
+        v, x, a = fresh(), fresh(), fresh()
+        kids += [v, x]
+        rows.append([v, [], [], False, False])
+        rows.append([x, [], [], False, False])
+        sub_rows = [[x, [v, a], [0, rng.choice((0, 0, 1))], False, True], [a, [], [], False, False]]
+        if rng.random() < 0.25:
+            f = fresh()
+            sub_rows += [[v, [a, f], [0, 1], False, rng.random() < 0.5], [f, [], [], False, False]]
+        if rng.random() < 0.4:  # a distractor row about classes that do not matter
+            d1, d2 = fresh(), fresh()
+            sub_rows.append([d1, [d2, a], [0, 0], False, True])
+        rng.shuffle(sub_rows)
+        packs[v] = {"n": nxt[0], "rows": sub_rows, "empties": []}
+    if via_reverse:
+        w, z, b = fresh(), fresh(), fresh()
+        kids += [w, z]  # Z is a child of the root too, so that the search meets (and verifies) it
+        rows += [[z, [w, b], [0, 0], False, True], [z, [], [], False, False], [b, [], [], False, False]]
+    rng.shuffle(kids)
+    if len(kids) > 3 and rng.random() < 0.5:  # a chain instead of one wide rule
+        mid = fresh()
+        rows.append([0, kids[:2] + [mid], [0] * 3, False, rng.random() < 0.5])
+        rows.append([mid, kids[2:], [0] * len(kids[2:]), False, rng.random() < 0.5])
+    else:
+        rows.append([0, kids, [0] * len(kids), False, rng.random() < 0.5])
+    rng.shuffle(rows)
+    return {"n": nxt[0], "rows": rows, "empties": [], "packs": {str(k_): v_ for k_, v_ in packs.items()},
+            "foreign": via_reverse, "via_reverse": via_reverse, "k": k}
